@@ -769,7 +769,7 @@ func (ex *Exec) applyContract(fr *Frame, st *State, ct *Contract, fn *ssa.Functi
 			cname = cname[i+2:] // interface method: "(Iface).Method"
 		}
 		for i, rq := range ex.contract.AtCall[cname] {
-			env := mkEnv(st, nil, false)
+			env := mkEnv(st, ex.entry, false) // old() = the caller's entry state
 			// the callee's parameters by name, and behind them the caller's own parameters
 			merged := map[string]Value{}
 			for k, v := range fr.params {
